@@ -83,8 +83,8 @@ def rand_cs(rng, allow_buffered=True, refresh=True):
         with_auto_precharge=rng.random() < 0.6,
         with_refresh=refresh,
         refresh_postponing=rng.choice([1, 1, 2, 4, 8, 3, 5, 7]) if refresh else 1,
-        read_time=rng.choice([32, 32, 8, 16]),
-        write_time=rng.choice([16, 16, 4, 8]),
+        read_time=rng.choice([32, 32, 8, 16, 5, 2]),
+        write_time=rng.choice([16, 16, 4, 8, 3, 2]),
     )
     return cs
 
